@@ -55,7 +55,12 @@ def directional_check(K, tag, f, inputs, dtype=torch.float64, n_dirs=2):
     w = torch.randn(out.shape, generator=gen, dtype=torch.float64).to(out.dtype) if out.ndim else torch.ones((), dtype=out.dtype)
     scalar = (out * w).sum()
     mag = float((out.detach() * w).abs().sum()) / max(1.0, math.sqrt(out.numel()))
-    grads = torch.autograd.grad(scalar, xs, allow_unused=True)
+    try:
+        grads = torch.autograd.grad(scalar, xs, allow_unused=True)
+    except Exception as ex:  # noqa: BLE001
+        K.checked += 1
+        K.failures.append({"clause": Q20 + f" [{tag}: backward raised {type(ex).__name__}: {str(ex)[:160]}]", "kind": "property", "tag": tag})
+        return
     for i, (x, g) in enumerate(zip(xs, grads)):
         K.checked += 1
         if g is None:
@@ -143,7 +148,8 @@ class GradCheckFunctional:
             directional_check(K, op, lambda a: UF.affine_flow(a, g), [m], dt)
         elif op == "euler_rotation_matrix":
             ang = torch.randn((2, 3 if D == 3 else 1), generator=gen, dtype=dt)
-            for order in (("ZXZ", "XYZ", "YXY") if D == 3 else (None,)):
+            orders = ("XZX", "XYX", "YXY", "YZY", "ZYZ", "ZXZ", "XZY", "XYZ", "YXZ", "YZX", "ZYX", "ZXY")
+            for order in (orders if D == 3 else (None,)):
                 directional_check(K, f"{op}[{order}]", lambda a, order=order: U.euler_rotation_matrix(a, order=order), [ang], dt)
         elif op == "quaternion_to_rotation_matrix":
             if D == 3:
@@ -234,7 +240,7 @@ class GradCheckTransforms:
             for D in (2, 3):
                 if D == 2 and name == "QuaternionRotation":
                     continue
-                for what in ("forward", "disp", "inverse", "warp"):
+                for what in ("forward", "disp", "inverse", "warp", "points", "pointset", "pointset-other", "input-points"):
                     if what == "inverse" and name in ("DisplacementFieldTransform", "FreeFormDeformation"):
                         continue
                     yield {"model": name, "D": D, "what": what}
@@ -265,7 +271,19 @@ class GradCheckTransforms:
                 p.add_(0.05 * torch.randn(p.shape, generator=gen, dtype=p.dtype))
         pts = (torch.rand((1, 9, D), generator=gen, dtype=torch.float64) - 0.5) * 1.2
 
-        def evaluate():
+        g2 = Grid(size=tuple(n + 2 for n in size), spacing=[0.8 + 0.1 * i for i in range(D)], center=[0.3] * D)
+
+        def evaluate(p=None):
+            from deepali.core.grid import Axes
+
+            p = pts if p is None else p
+            if what == "points":
+                t.update()  # points() does not run the update hook itself (unlike the module call / PointSetTransformer)
+                return t.points(p, axes=Axes.CUBE_CORNERS, to_grid=g2, to_axes=Axes.GRID)
+            if what in ("pointset", "input-points"):
+                return sp.PointSetTransformer(t)(p)
+            if what == "pointset-other":
+                return sp.PointSetTransformer(t, axes=Axes.CUBE, to_grid=g2, to_axes=Axes.CUBE_CORNERS)(p)
             if what == "forward":
                 return t(pts)
             if what == "disp":
@@ -288,6 +306,10 @@ class GradCheckTransforms:
                     p.data = o
 
         tag = f"{name}.{what}"
+        if what == "input-points":
+            # gradient with respect to the input point coordinates
+            directional_check(K, tag, lambda p: evaluate(p), [pts], torch.float64)
+            return
         K.checked += 1
         try:
             out = evaluate()
@@ -298,7 +320,11 @@ class GradCheckTransforms:
         w = torch.randn(out.shape, generator=gen, dtype=torch.float64).to(out.dtype)
         scalar = (out * w).sum()
         mag = float((out.detach() * w).abs().sum()) / max(1.0, math.sqrt(out.numel()))
-        grads = torch.autograd.grad(scalar, params, allow_unused=True)
+        try:
+            grads = torch.autograd.grad(scalar, params, allow_unused=True)
+        except Exception as ex:  # noqa: BLE001
+            K.failures.append({"clause": Q20 + f" [{tag}: backward raised {type(ex).__name__}: {str(ex)[:160]}]", "kind": "property", "tag": tag})
+            return
         for i, (p, gr) in enumerate(zip(params, grads)):
             K.checked += 1
             if gr is None:
